@@ -324,6 +324,31 @@ func init() {
 				})
 			})
 		}
+		// Part 2f: rows whose length (before the line end) lies around 4096 and 8192 bytes, by a long name and by wide
+		// indentation, in the CRLF and the LF spelling, with and without a final newline
+		for _, ln := range []int{4090, 4093, 4094, 4095, 4096, 4097, 8190, 8191, 8192} {
+			if !c.Take() || c.Expired() {
+				continue
+			}
+			c.StateN(1)
+			c.Inc("row_length_cases")
+			// by name: "- " + name has ln bytes
+			d, names := []int{1, 2, 2}, []string{"r", strings.Repeat("n", ln-4), "abc"}
+			cn := &c15Canon{doc: enum.Spell(d, names, enum.Canonical), out: map[string]string{}, roots: 1}
+			for _, crlf := range []bool{true, false} {
+				for _, nofinal := range []bool{false, true} {
+					idx++
+					c15Check(c, cn, d, names, enum.Spelling{Unit: "  ", Bullets: []byte("-"), CRLF: crlf, NoFinal: nofinal}, idx*16)
+				}
+			}
+			// by indentation: one level of (ln - 5) blanks in front of "- abc"
+			d2, names2 := []int{1, 2, 2}, []string{"r", "abc", "def"}
+			cn2 := &c15Canon{doc: enum.Spell(d2, names2, enum.Canonical), out: map[string]string{}, roots: 1}
+			for _, crlf := range []bool{true, false} {
+				idx++
+				c15Check(c, cn2, d2, names2, enum.Spelling{Unit: strings.Repeat(" ", ln-5), Bullets: []byte("-"), CRLF: crlf}, idx*16)
+			}
+		}
 		// Part 2d: deep chains in every unit (the same depth is 1 ... 8 times as many columns)
 		for _, depth := range []int{13, 26, 51, 60} {
 			if !c.Take() || c.Expired() {
@@ -348,7 +373,7 @@ func init() {
 		// Part 3: hostile names at n <= 2, full product (names with bullets or '#' at their edges, blanks inside)
 		{
 			// (incl. names made of bullet characters only: with the same character as bullet such a row looks like a rule)
-			host := []string{"x y", "C#", "#inc", "--", "- -", "**"}
+			host := []string{"x y", "C#", "#inc", "--", "- -", "**", "caf\xe9"}
 			if c.Thorough() {
 				host = []string{"x y", "+x*", "é", "- q", "C#", "#inc", "a#b", "*", "--", "- -", "**", "---", "++", "* * *", "__"}
 			}
